@@ -12,7 +12,7 @@ mkdir -p .work/matrix
 for d in $pat; do
   n=$(basename "$d")
   if ! git -C "$REPO" apply "$(realpath "$d/patch.diff")" 2>/dev/null; then
-    if ! git -C "$REPO" apply -3 "$(realpath "$d/patch.diff")" 2>/dev/null; then echo "$n: PATCH DOES NOT APPLY"; git -C "$REPO" checkout -- . ; continue; fi
+    if ! git -C "$REPO" apply -3 "$(realpath "$d/patch.diff")" 2>/dev/null; then echo "$n: PATCH DOES NOT APPLY"; git -C "$REPO" reset -q --hard HEAD; continue; fi
   fi
   bin/vcheck __build__ >/dev/null 2>&1
   echo $ids | tr ' ' '\n' | xargs -P 10 -I{} bash -c 'bin/vcheck {} > .work/matrix/'"$n"'.{}.log 2>&1; echo "{}=$?" ' | sort | tr '\n' ' ' > .work/matrix/$n.rcs
